@@ -68,9 +68,9 @@ def gen_version(rng, canonical=False, release=None, epoch=None):
         if rng.random() < 0.15:
             s = rng.choice(["v", "V"]) + s
         if rng.random() < 0.15:
-            s = rng.choice([" ", "\t", "\n", "  "]) + s
+            s = rng.choice([" ", "\t", "\n", "  ", "\x0b", "\x0c", "\r", "\x1c", "\x1d", "\x1e", "\x1f", "\x85", "\xa0", "\u2003", "\u3000"]) + s   # everything \s matches
         if rng.random() < 0.15:
-            s = s + rng.choice([" ", "\t", "\n", " \n"])
+            s = s + rng.choice([" ", "\t", "\n", " \n", "\x0b", "\x0c", "\r", "\x1c", "\x1f", "\x85", "\xa0", "\u2003"])
     return s, kind
 
 def mutate(rng, s):
